@@ -102,14 +102,31 @@ def _count_to_int(c):
     return c if z3.is_int(c) else z3.ToInt(c)
 
 
+_PER_S = {"ms": 10 ** 3, "us": 10 ** 6}
+
+
 def _coarsen(x, dt):
-    """value of a time scalar after a cast to dtype dt: units of a second or coarser drop the sub-second fraction"""
-    if getattr(x, "f", None) is None:
+    """value of a time scalar after a cast to dtype dt: units of a second or coarser drop the sub-second fraction, ms / us floor it
+    to their resolution"""
+    f = getattr(x, "f", None)
+    if f is None:
         return x
     u = _unit(dt)
-    if u in ("ns", "us", "ms"):
+    if u == "ns":
         return x
+    if u in _PER_S:
+        k = _PER_S[u]
+        if _is_numeral(f):
+            import math
+            from .values import _numval
+            q = Fraction(math.floor(_numval(f) * k), k)
+            return type(x)(x.s, x.nat, rv(q) if q else None)
+        return type(x)(x.s, x.nat, z3.ToReal(z3.ToInt(f * k)) / k)
     return type(x)(x.s, x.nat)
+
+
+def _is_numeral(t):
+    return z3.is_rational_value(t) or z3.is_int_value(t)
 
 
 def havoc(dt, what="uninitialised"):
@@ -295,6 +312,11 @@ class ndarray:
 
     __array_priority__ = 100
     _is_masked = False
+
+    def __getattr__(self, name):
+        from .values import missing_attr
+        missing_attr(_np.ma.MaskedArray if type(self)._is_masked else _np.ndarray, name,
+                     "numpy.ma.MaskedArray" if type(self)._is_masked else "numpy.ndarray")
 
     def __init__(self, a, dt, root=None, owner="local"):
         self.a = a
